@@ -357,3 +357,33 @@ def r15c(ctx):
         ctx.ok("io.parquet._tokenize_fileinfo", m.loc(node), f"token covers {sorted(attrs & need)}")
     else:
         ctx.bad("io.parquet._tokenize_fileinfo", m.loc(node), f"file identity token lacks {sorted(need - attrs)}: a file rewritten in place (same path{', same size' if 'size' in attrs else ''}) keeps its token, so cached statistics, the dataset checksum and the read_parquet name go stale")
+
+
+@rule(
+    "R15d",
+    ["C15"],
+    """NO CONFIGURATION FROZEN INTO A SINGLETON: expressions are process-wide singletons keyed by name, so a cached_property of
+    an expression class whose value depends on the process configuration (dask.config.get, get_default_shuffle_method())
+    keeps the value of the first session that asked: later plans depend on what ran before. Such members must be plain
+    properties / methods (or the setting must be an operand).""",
+)
+def r15d(ctx):
+    model = ctx.model
+    n = 0
+    for c in model.expr_classes():
+        for m in model.functions_of(c):
+            fn = m.node
+            reads = []
+            for call in (x for x in iter_body_nodes(fn) if isinstance(x, ast.Call)):
+                d = dotted(call.func) or ""
+                if d in ("get_default_shuffle_method", "config.get", "dask.config.get"):
+                    reads.append(call)
+            if not reads:
+                continue
+            n += 1
+            cid = f"{qual(c, fn)}:config-read"
+            if m.kind == "cached_property":
+                ctx.bad(cid, c.module.loc(reads[0]), f"{qual(c, fn)} is a cached_property that reads the process configuration (`{ast.unparse(reads[0])}`): the shared expression instance keeps the first answer, so the plan of a later query depends on the configuration under which an equal expression was planned earlier")
+            else:
+                ctx.ok(cid, c.module.loc(reads[0]), f"{m.kind}: evaluated at use")
+    ctx.floor("configuration reads in expression classes", n, 3)
